@@ -459,6 +459,8 @@ class MethodBuilder:
         self.fn = None
         self.cond_eff = None      # while evaluating a branch condition: conditional effects found in it
         self.cond_pol = (True, False)
+        self.taint = {}           # local pointer / reference variables that point INTO guarded state: name -> (field, is_ref)
+        self.ret_guarded = {}     # methods of the class that return a pointer / reference into guarded state: name -> field
 
     def emit(self, ev):
         n = self.g.new(ev)
@@ -605,6 +607,25 @@ class MethodBuilder:
             self.expr(inner[0])
             self.cond_pol = (t, f)
             return
+        if self.policy is None and self.mutex and k == "BinaryOperator" and n.get("opcode") == "=" and len(inner) == 2:
+            lhs = unwrap(inner[0])
+            if lhs.get("kind") == "DeclRefExpr" and obj_name(lhs) in getattr(self, "ptr_locals", set()) | set(self.taint):
+                self.expr(inner[1])
+                src = self.guarded_source(inner[1])
+                if src: self.taint[obj_name(lhs)] = (src, False)
+                else: self.taint.pop(obj_name(lhs), None)
+                return
+        if self.policy is None and self.taint:
+            tgt = None
+            if k == "UnaryOperator" and n.get("opcode") == "*" and inner: tgt = unwrap(inner[0])
+            elif k == "MemberExpr" and n.get("isArrow") and inner: tgt = unwrap(inner[0])
+            elif k == "ArraySubscriptExpr" and inner: tgt = unwrap(inner[0])
+            if tgt is not None and tgt.get("kind") == "DeclRefExpr" and obj_name(tgt) in self.taint:
+                self.emit(("Wr" if write else "Rd", self.taint[obj_name(tgt)][0]))
+                return
+            if k == "DeclRefExpr" and obj_name(n) in self.taint and self.taint[obj_name(n)][1]:
+                self.emit(("Wr" if write else "Rd", self.taint[obj_name(n)][0]))
+                return
         if k in ("BinaryOperator", "CompoundAssignOperator") and len(inner) == 2:
             if n.get("opcode") in WRITE_OPS:
                 self.expr(inner[1]); self.expr(inner[0], write=True)
@@ -628,6 +649,37 @@ class MethodBuilder:
                 return
         for c in inner:
             self.expr(c, write)
+
+    @staticmethod
+    def is_ptr_or_ref(ty):
+        t = ty.replace("const", "").strip()
+        return t.endswith("*") or t.endswith("&")
+
+    def guarded_source(self, x):
+        """field of the guarded state that the value of expression x points / refers into, if any"""
+        if not isinstance(x, dict):
+            return None
+        k = x.get("kind")
+        if k in ("MemberExpr", "CXXDependentScopeMemberExpr") and self.is_this_field(x):
+            return x.get("name") or x.get("member")
+        if k == "DeclRefExpr" and obj_name(x) in self.taint:
+            return self.taint[obj_name(x)][0]
+        if k in ("CXXMemberCallExpr", "CallExpr") and x.get("inner"):
+            c = unwrap(x["inner"][0])
+            nm = c.get("name") or c.get("member")
+            b = unwrap((c.get("inner") or [{}])[0]) if c.get("inner") else {}
+            if nm in self.ret_guarded and b.get("kind") in ("CXXThisExpr", None):
+                return self.ret_guarded[nm]
+            if c.get("kind") in ("MemberExpr", "CXXDependentScopeMemberExpr"):
+                # member call on a field (operator[] / front() / at() ...): refers into that field
+                return self.guarded_source(b)
+            return None
+        if k == "LambdaExpr":
+            return None
+        for c in x.get("inner", []):
+            r = self.guarded_source(c)
+            if r: return r
+        return None
 
     def eval_cond(self, cond):
         """walks a branch condition; returns (conditional effects, unused).  Every conditional effect found in the condition
@@ -724,6 +776,13 @@ class MethodBuilder:
                         continue
                     for c in init:
                         self.expr(c)
+                    if self.policy is None and self.mutex and d.get("name") and self.is_ptr_or_ref(ty):
+                        src = None
+                        for c in init:
+                            src = src or self.guarded_source(c)
+                        if src: self.taint[d["name"]] = (src, ty.replace("const", "").strip().endswith("&"))
+                        else: self.taint.pop(d["name"], None)
+                        if not init: self.ptr_locals = getattr(self, "ptr_locals", set()) | {d["name"]}
             return
         if k == "IfStmt":
             # children: [init/cond-var]? cond then else?
@@ -956,6 +1015,24 @@ def extract_classes(w):
                 and not t.startswith("const ") and f not in conf.get("exclude", [])}
         mnames = set(fn for (c, fn) in w.funcs if c == cls)
         notify_guarded = dtor_waits_on_cv(w, cls)
+        # methods that hand out a pointer / reference into the guarded state
+        ret_guarded = {}
+        for (c, fn), nodes in w.funcs.items():
+            if c != cls: continue
+            for fnode in nodes:
+                rty = fnode.get("type", {}).get("qualType", "").split("(")[0]
+                if not MethodBuilder.is_ptr_or_ref(rty): continue
+                probe = MethodBuilder(cls, mutex, set(data), mnames, [])
+                stack = [fnode]
+                while stack:
+                    n = stack.pop()
+                    if not isinstance(n, dict): continue
+                    if n.get("kind") == "ReturnStmt":
+                        src = None
+                        for ch in n.get("inner", []):
+                            src = src or probe.guarded_source(ch)
+                        if src: ret_guarded[fn] = src
+                    stack.extend(n.get("inner", []))
         if notify_guarded:
             for f, t in fields.items():
                 if "condition_variable" in t:
@@ -973,6 +1050,7 @@ def extract_classes(w):
                               and ("unique_lock" in p.get("type", {}).get("qualType", "")) and p.get("name")]
                 mb = MethodBuilder(cls, mutex, set(data), mnames, lockparams)
                 mb.notify_guarded = notify_guarded
+                mb.ret_guarded = ret_guarded
                 for x in fnode.get("inner", []):
                     if x.get("kind") == "CompoundStmt":
                         mb.stmt(x)
